@@ -30,6 +30,36 @@ type Folded struct {
 }
 
 var knownFuncs map[string]bool
+var knownSigs = map[string]string{}
+
+// sigKey: a function's parameter and result types (names dropped), the part of an anchor that a
+// pure rename leaves unchanged.
+func sigKey(fn *ssa.Function) string {
+	sig := fn.Signature
+	var sb strings.Builder
+	if sig.Recv() != nil {
+		sb.WriteString(types.TypeString(sig.Recv().Type(), nil))
+	}
+	sb.WriteString("(")
+	for i := 0; i < sig.Params().Len(); i++ {
+		if i > 0 {
+			sb.WriteString(",")
+		}
+		sb.WriteString(types.TypeString(sig.Params().At(i).Type(), nil))
+	}
+	if sig.Variadic() {
+		sb.WriteString("...")
+	}
+	sb.WriteString(")(")
+	for i := 0; i < sig.Results().Len(); i++ {
+		if i > 0 {
+			sb.WriteString(",")
+		}
+		sb.WriteString(types.TypeString(sig.Results().At(i).Type(), nil))
+	}
+	sb.WriteString(")")
+	return sb.String()
+}
 
 func loadKnownFuncs() map[string]bool {
 	if knownFuncs != nil {
@@ -44,7 +74,9 @@ func loadKnownFuncs() map[string]bool {
 	sc.Buffer(make([]byte, 1<<20), 1<<20)
 	for sc.Scan() {
 		if l := strings.TrimSpace(sc.Text()); l != "" && !strings.HasPrefix(l, "#") {
-			knownFuncs[l] = true
+			name, sig, _ := strings.Cut(l, "\t")
+			knownFuncs[name] = true
+			knownSigs[name] = sig
 		}
 	}
 	return knownFuncs
@@ -91,8 +123,64 @@ func (m *Module) foldNewHelpers() error {
 	if len(known) == 0 || os.Getenv("KAFCHECK_NOFOLD") != "" {
 		return nil
 	}
+	// a pure rename of an anchored function: the listed name is gone from a loaded package and exactly
+	// one function that is not on the list has its receiver, parameter and result types. That
+	// function stands in for the anchor (it is neither folded nor reported as unknown).
+	m.Renamed = map[string]*ssa.Function{}
+	{
+		present := map[string]bool{}
+		bySig := map[string][]*ssa.Function{}
+		pkgOf := func(full string) string {
+			n := strings.TrimPrefix(strings.TrimPrefix(full, "("), "*")
+			if i := strings.LastIndex(n, "."); i > 0 {
+				n = n[:i]
+			}
+			n = strings.TrimSuffix(n, ")")
+			if i := strings.LastIndex(n, "."); i > 0 && strings.Contains(full, ").") {
+				n = n[:i]
+			}
+			return n
+		}
+		for _, fn := range namedLocalFuncs(m) {
+			present[fn.String()] = true
+			if !known[fn.String()] {
+				if p := fnPkg(fn); p != nil {
+					bySig[p.Path()+"|"+sigKey(fn)] = append(bySig[p.Path()+"|"+sigKey(fn)], fn)
+				}
+			}
+		}
+		taken := map[*ssa.Function]bool{}
+		var names []string
+		for name := range known {
+			names = append(names, name)
+		}
+		sort.Strings(names)
+		for _, name := range names {
+			if present[name] || knownSigs[name] == "" {
+				continue
+			}
+			pp := pkgOf(name)
+			if _, local := m.SSAPkgs[pp]; !local {
+				continue
+			}
+			c := bySig[pp+"|"+knownSigs[name]]
+			if len(c) == 1 && !taken[c[0]] {
+				taken[c[0]] = true
+				m.Renamed[name] = c[0]
+			}
+		}
+	}
+	isStandIn := map[*ssa.Function]bool{}
+	for old, f := range m.Renamed {
+		isStandIn[f] = true
+		standInName[f] = old
+	}
 	cands := map[*ssa.Function]bool{}
 	for _, fn := range namedLocalFuncs(m) {
+		if isStandIn[fn] {
+			m.Folded = append(m.Folded, Folded{Helper: fn.String(), Kept: "stands in for a renamed anchor"})
+			continue
+		}
 		if known[fn.String()] || token.IsExported(fn.Name()) || fn.Name() == "init" || fn.Name() == "main" {
 			continue
 		}
